@@ -46,6 +46,7 @@ def main():
     from pv.common import Ctx
     mod = importlib.import_module(f"pv.props.{args.prop.lower()}")
     ctx = Ctx(args.prop, job['tier'], job['seed'], job['shard'])
+    ctx.checkpoint_path = args.out + '.partial'
     t0 = time.time()
     c0 = time.process_time()
     if job.get('replay') is not None:
